@@ -23,6 +23,7 @@ typedef struct { _Bool has; sv_t v; } opt_sv_t;
 typedef struct { _Bool has; str_t v; } opt_str_t;
 typedef struct { _Bool has; uint16_t v; } opt_uint16_t;
 typedef struct { _Bool has; _Bool v; } opt_Bool_t;
+typedef struct { _Bool has; str_t v; } result_str_t_t;
 typedef struct { uint16_t a[8]; } arr_uint16_t_8_t;
 typedef struct { uint16_t a[8]; } arr_unsigned_short_8_t;
 struct m_url_base { _Bool is_valid; _Bool has_opaque_path; int host_type; int type; };
@@ -185,6 +186,10 @@ def wrapper(ex, cname):
         body.append('  auto r = %s;' % call)
         body += post
         body.append('  opt_Bool_t rr; rr.has = r.has_value(); rr.v = r.value_or(false); return rr;')
+    elif rct.klass == 'result' and rct.c == 'result_str_t_t':
+        body.append('  auto r = %s;' % call)
+        body += post
+        body.append('  result_str_t_t rr; rr.has = r.has_value(); to_model(&rr.v, r ? *r : std::string()); return rr;')
     elif rct.klass == 'comp' and not rct.ref:
         body.append('  ada::url_components r = %s;' % call)
         body += post
